@@ -24,11 +24,14 @@ Sendable(ip) ==
 GoodFrom(ip) == {r \in Sendable(ip) : \E z \in Delegated(net, ip) : InZone(r.o, z)}
 AllGood == UNION {GoodFrom(ip) : ip \in AddrsOf(net)}
 
+\* the depth limits of the case: the internet's own, else the generator's
+CaseLim == IF net.lim.rec = 0 THEN Lim ELSE net.lim
+
 Case ==
-    [net |-> net, q |-> q, lim |-> Lim,
+    [net |-> net, q |-> q, lim |-> CaseLim,
      exp |-> [records |-> AllGood \ DeniedAnswers(net, AllGood),
               contact |-> {a \in net.roots \cup {AddrOf(r) : r \in {x \in AllGood : IsAddr(x)}} : ~DeniedContact(net, a)},
-              bound |-> Bound(net, Lim)],
+              bound |-> Bound(net, CaseLim)],
      model |-> [kind |-> out.kind, recs |-> out.recs, asked |-> Len(log)]]
 
 Emit == Done => PrintT(<<"REPLAY", ToJson(Case)>>)
